@@ -206,7 +206,7 @@ def main():
             rec.error(traceback.format_exc(limit=4))
         rec.write(args.out)
         return
-    n_main, n_bound = (600, 250) if args.tier == "quick" else (6000, 2500)
+    n_main, n_bound = (3000, 1200) if args.tier == "quick" else (30000, 12000)
     rng = rng_of(args.seed, 17)
     for t in range(n_main + n_bound):
         boundary = t >= n_main
